@@ -237,6 +237,23 @@ def run_case(case):
             v.history = {"label": label + "+second-allocate", "n_names": len(names), "extras": list(extras),
                          "allow_list": allow, "rank": rank}
             viols.append(v.to_json())
+        # a name that was in use during earlier allocations and is then freed must be handed out again
+        freed = None
+        for nm in names:
+            if nm.isdigit() and not nm.startswith("0"):
+                freed = nm
+                break
+        if freed is not None:
+            do(("cbind", c + 2, "X", "Z"))
+            do(("release", c + 2, freed))
+            do(("cbind", c + 3, "X", "C"))
+            if script:
+                w.randrange_script = [6666]
+            rs3, vs3 = do(("allocate", c + 3, rank))
+            for v in vs3:
+                v.history = {"label": label + "+allocate-after-free", "freed": freed, "n_names": len(names),
+                             "extras": list(extras), "allow_list": allow, "rank": rank}
+                viols.append(v.to_json())
         w.destroy()
         return viols, {"label": label, "answer": ans[0] if ans else None, "steps": 2 * c + 4}
     except W.HarnessError as e:
